@@ -77,7 +77,7 @@ func c04Config(r *run.Rng) c04Cfg {
 		}
 	}
 	w, h := r.Range(1, 100), r.Range(1, 600)
-	cfg.rect = image.Rect(0, 0, w, h).Add(image.Pt(r.Intn(50), r.Intn(50)))
+	cfg.rect = image.Rect(0, 0, w, h).Add(image.Pt(r.Range(-30, 50), r.Range(-30, 50))) // origins of either sign
 	if r.Chance(1, 40) {
 		// an empty target rectangle: height 0 for the LOD test, nothing to scale to
 		cfg.rect = image.Rectangle{}
